@@ -302,9 +302,8 @@ func (it *cmap4Iter) Char() (r rune, gy GID) {
 		}
 	} else { // pos2 is the array index
 		r = rune(it.pos2) + rune(entry.start)
-		gy = GID(entry.indexes[it.pos2])
-		if gy != 0 {
-			gy += GID(entry.delta)
+		if glyph := entry.indexes[it.pos2]; glyph != 0 {
+			gy = GID(uint16(glyph) + entry.delta) // arithmetic modulo 0x10000, as in Lookup
 		}
 		if it.pos2 == len(entry.indexes)-1 {
 			// we have read the last glyph in this part
